@@ -82,7 +82,7 @@ def build_model(rng, p_ia: float = 0.5) -> tuple[dict, dict]:  # noqa: ANN001
     return spec, info
 
 
-def gen_table(rng, info: dict, kind: str) -> pd.DataFrame:  # noqa: ANN001
+def gen_table(rng, info: dict, kind: str, force_duplicate_labels: bool = False) -> pd.DataFrame:  # noqa: ANN001
     ncol = rng.randint(1, 3)
     cols: list[str] = []
     pool = info["params"] + info["variables"]
@@ -95,6 +95,8 @@ def gen_table(rng, info: dict, kind: str) -> pd.DataFrame:  # noqa: ANN001
         if c not in cols:
             cols.append(c)
     nrows = rng.choice([1, 2, 3, 5, 7, 12, 20, 40]) if "scan_steady_state" not in kind else rng.choice([1, 2, 4])
+    if force_duplicate_labels:
+        nrows = max(nrows, 2)
     data = {c: [round(rng.uniform(0.3, 2.5), 3) for _ in range(nrows)] for c in cols}
     df = pd.DataFrame(data)
     fail_rows: list[int] = []
@@ -104,6 +106,8 @@ def gen_table(rng, info: dict, kind: str) -> pd.DataFrame:  # noqa: ANN001
             df.loc[r, "kz"] = 0.0
             fail_rows.append(r)
     labels = rng.choice(["default", "offset", "str", "shuffled", "duplicate"])
+    if force_duplicate_labels:
+        labels = "duplicate"
     if labels == "duplicate" and nrows >= 2:
         # row labels need not be unique (pd.concat of two tables without ignore_index): rows are still rows
         df.index = [i % max(1, (nrows + 1) // 2) for i in range(nrows)]
@@ -197,7 +201,8 @@ def run_case(case: dict) -> dict:
     spec, info = build_model(rng, 1.0 if overlap else 0.8 if "steady_state" in kind else 0.5)
     pristine = rm.build(spec)
     k = kind.split(".")[1]
-    table, fail_rows = gen_table(rng, info, kind)
+    # (the other half of the steady-state cases: a table whose row labels repeat)
+    table, fail_rows = gen_table(rng, info, kind, force_duplicate_labels="steady_state" in kind and not overlap and rng.random() < 0.5)
     if overlap and "x0" not in table.columns:
         table["x0"] = [round(rng.uniform(0.3, 2.5), 3) for _ in range(len(table))]
     extra: dict = {}
